@@ -1,7 +1,7 @@
 import beacon
 
 MANIFEST = dict(
-    text="On every recorded state of every generated chain (after each block, epoch boundary, upgrade and validator-adding deposit) the long-lived in-memory EpochsContext is compared, field by field, with what the Coq Spec computes from the state bytes alone (active sets and all committees of three epochs, proposers, effective balances, total active stake, sync-committee indices); continuing after serialize/reload is covered because every step is recomputed by the model from the pre-state bytes. Coq theorems (Beacon/Proofs): the look-ahead stability facts that make zrnt's once-per-epoch caching sound (frame lemmas, seeds/active sets/committees/proposers invariant under block processing) as they are proved. Partial: no Impl model of the cache-maintenance code; tie is by correspondence.",
+    text="On every recorded state of every generated chain (after each block, epoch boundary, upgrade and validator-adding deposit) the long-lived in-memory EpochsContext is compared, field by field, with what the Coq Spec computes from the state bytes alone (active sets and all committees of three epochs, proposers, effective balances, total active stake, sync-committee indices); continuing after serialize/reload is covered because every step is recomputed by the model from the pre-state bytes. Coq theorems: (Beacon/Proofs) the look-ahead stability facts that make once-per-epoch caching sound — frame lemmas for every sub-transition and operation, seeds / active sets / committees / proposers / stake invariant under block processing and in-epoch slot steps, the new previous/current shufflings at an epoch boundary are the old current/next ones; (Beacon/Impl/Epc.v + Refine/EpcRefine.v) an implementation model of zrnt's EpochsContext maintenance (NewEpochsContext, RotateEpochs, the deposit path extending pubkeys and effective balances, LoadSyncCommittees after the altair upgrade) with the invariant epc_matches proved to be established by a fresh context and preserved by blocks, slot steps, epoch rotation and upgrades, hence for every chain (epc_always_fresh) and across reload (reload_continue_same). Partial: the chain theorem is conditional on the C07 side conditions (proposer sampling within zrnt's 32000-candidate cap, non-empty active set) and explicit uint64 ranges at every rotated state; these are not shown to be invariants of reachable states.",
     note="Trusted: Coq kernel; extraction + OCaml driver; pyspec transliteration; chain generator's context dump. No axioms.",
     technique="Coq invariant proofs (look-ahead stability) + live-context vs extracted-Spec correspondence on generated chains",
     design="4/C08")
